@@ -94,3 +94,10 @@ Fixpoint loop_res {S} (fuel : nat) (s : S) (body : S -> res (bool * S)) : res S 
   | O => Panic OutOfFuel
   | S f => let* r := body s in if fst r then loop_res f (snd r) body else Val (snd r)
   end.
+
+(* ---------- construct.rs: the Vec primitives the constructors use (capacity is not part of the model) ---------- *)
+Definition vec_new {A} : list A := [].
+Definition vec_with_capacity {A} (n : Z) : list A := [].
+Definition vec_resize_with {A} (l : list A) (n : Z) (d : A) : list A :=
+  if n <=? zlen l then zfirstn n l else l ++ zrepeat d (n - zlen l).
+Definition vec_push {A} (l : list A) (x : A) : list A := l ++ [x].
